@@ -50,7 +50,8 @@ ModelEnv(list) == << << "vi", VIntN(7) >>, << "x", VIntN(40) >>,
                     << "vl", VList([i \in 1..Len(list) |-> VIntN(list[i])]) >>,
                     << "vm", [t |-> "map", e |-> << << VStr(<<97>>), VIntN(1) >>, << VStr(<<98>>), VIntN(0) >> >>, ord |-> FALSE] >> >>      \* the instance's iteration order is not known here
 \* a host function registered under an existing name replaces it
-FOf(r) == IF "overrides" \in DOMAIN r /\ r.overrides # << >>
+FOf(r) == IF "registry" \in DOMAIN r /\ r.registry = "empty" THEN [n \in {} |-> 0]           \* Context::empty()
+          ELSE IF "overrides" \in DOMAIN r /\ r.overrides # << >>
           THEN [n \in DOMAIN F \cup {r.overrides[i] : i \in 1..Len(r.overrides)} |->
                   IF \E i \in 1..Len(r.overrides) : r.overrides[i] = n THEN ZO!H(<< ZO!A >>, "pack") ELSE F[n]]
           ELSE F
